@@ -40,7 +40,19 @@ pub fn run(ctx: &Ctx) -> i32 {
     let n = ctx.tier.pick(1500u64, 20000u64);
     run_workload(ctx, &mut acc, "trees-inprocess", n, |k, rng, acc| {
         let ents = gen_tree_eligible(rng, &pool, 0, if rng.chance(1, 5) { 12 } else { 4 }, 3);
-        let root = scratch_dir("c03");
+        let base = scratch_dir("c03");
+        let root = format!("{}/root", base);
+        std::fs::create_dir(&root).unwrap();
+        let mut ents = ents;
+        if rng.chance(1, 5) {
+            // a directory and a file that live outside the analysed root and are reached through symbolic links
+            std::fs::create_dir_all(format!("{}/shared/vendor", base)).unwrap();
+            std::fs::write(format!("{}/shared/vendor/Linked.sol", base), rng.pick(&pool.progs).1.as_bytes()).unwrap();
+            std::fs::write(format!("{}/shared/Single.sol", base), rng.pick(&pool.progs).1.as_bytes()).unwrap();
+            ents.push(Ent::Link { name: "vendor".into(), target: "../shared/vendor".into() });
+            ents.push(Ent::Link { name: "LinkedFile.sol".into(), target: "../shared/Single.sol".into() });
+            acc.cov("trees-with-symlinks");
+        }
         build(&root, &ents);
         shapes(&root, 0, acc);
         let all = all_dets();
@@ -61,7 +73,7 @@ pub fn run(ctx: &Ctx) -> i32 {
             acc.discards += 1;
             acc.cov("discard:expected-side-failed");
             let _ = e;
-            let _ = std::fs::remove_dir_all(&root);
+            let _ = std::fs::remove_dir_all(&base);
             return;
         }
         match observed_findings_inprocess(&root, &pats) {
@@ -85,7 +97,30 @@ pub fn run(ctx: &Ctx) -> i32 {
         if k < 2 {
             acc.sample(json!({"tree_in_creation_order": to_json(&ents), "patterns": pats.len(), "expected_entries": exp.len()}));
         }
-        let _ = std::fs::remove_dir_all(&root);
+        // history: rewrite some files in place (same paths) and analyse the same directory again in this process
+        if rng.chance(1, 3) {
+            let mut changed = 0;
+            for (n, is_dir) in listing(&root) {
+                if !is_dir && n.ends_with(".sol") && !n.starts_with("Linked") && rng.chance(1, 2) {
+                    let _ = std::fs::write(format!("{}/{}", root, n), rng.pick(&pool.progs).1.as_bytes());
+                    changed += 1;
+                }
+            }
+            if changed > 0 {
+                let mut exp2 = vec![];
+                if expected_findings(&root, &pats, &mut exp2).is_ok() {
+                    if let Ok(got2) = observed_findings_inprocess(&root, &pats) {
+                        acc.eval();
+                        acc.cov("re-analysis-after-rewriting-files-in-place");
+                        let (lost, foreign) = diff(&exp2, &got2);
+                        if !lost.is_empty() || !foreign.is_empty() {
+                            acc.violation("stale-content-after-rewrite", json!({"tree": to_json(&ents), "files_rewritten": changed, "lost": lost.iter().take(5).collect::<Vec<_>>(), "foreign": foreign.iter().take(5).collect::<Vec<_>>()}));
+                        }
+                    }
+                }
+            }
+        }
+        let _ = std::fs::remove_dir_all(&base);
     });
     // through the binary
     let nb = ctx.tier.pick(150u64, 2000u64);
